@@ -215,6 +215,7 @@ GROUPS = {
     "buf": ("GenBuf.v", "TieBuf.v", ["tie_buf_read", "tie_buf_setpos", "tie_buf_getpos", "tie_buf_getpos_ms"]),
     "fmt": ("GenFmt.v", "TieFmt.v", ["tie_fields"]),
     "load": ("GenLoad.v", "TieLoad.v", ["tie_read_offline"]),
+    "selector": ("GenSelector.v", "TieSelector.v", ["tie_selector"]),
     "reader": ("GenReader.v", "TieReader.v", ["tie_reader_params", "tie_lim_read", "tie_rec_read", "tie_fixed_read", "tie_ov_first", "tie_ov_next"]),
     "loops": ("GenLoops.v", "TieLoops.v", ["tie_run_turn", "tie_stop_requested", "tie_tok_read", "tie_programs"]),
 }
@@ -1407,7 +1408,12 @@ def gen_load(repo):
     return "\n".join(out)
 
 
-GENERATORS = {"load": gen_load, "reader": gen_reader, "loops": gen_loops, "savers": gen_savers, "fsrc": gen_fsrc, "algebra": gen_algebra, "split": gen_split, "dur": gen_dur, "region": gen_region, "silence": gen_silence, "buf": gen_buf, "fmt": gen_fmt}
+def gen_selector(repo):
+    from . import selector
+    return selector.emit(repo)
+
+
+GENERATORS = {"selector": gen_selector, "load": gen_load, "reader": gen_reader, "loops": gen_loops, "savers": gen_savers, "fsrc": gen_fsrc, "algebra": gen_algebra, "split": gen_split, "dur": gen_dur, "region": gen_region, "silence": gen_silence, "buf": gen_buf, "fmt": gen_fmt}
 
 
 def emit_group(repo, group):
